@@ -89,6 +89,13 @@ impl<F: Future, I: FnMut() -> bool + Unpin> Future for Driven<'_, F, I> {
 
 thread_local! {
     static RT: RefCell<Option<tokio::runtime::Runtime>> = const { RefCell::new(None) };
+    /// Virtual milliseconds that passed in wire-engine runs on this thread (watchdog jumps excluded).
+    static SIM_MS: std::cell::Cell<u64> = const { std::cell::Cell::new(0) };
+}
+
+/// Takes (and resets) the virtual time accumulated by `run` on this thread.
+pub fn take_sim_ms() -> u64 {
+    SIM_MS.with(|c| c.replace(0))
 }
 
 fn new_runtime() -> tokio::runtime::Runtime {
@@ -110,6 +117,7 @@ pub fn run<F: Future>(fut: F, on_idle: impl FnMut() -> bool + Unpin, max_polls: 
     let mut fut = std::pin::pin!(fut);
     let mut polls = 0u64;
     let out = rt.block_on(async {
+        let t0 = tokio::time::Instant::now();
         let mut driven = Driven {
             fut: fut.as_mut(),
             on_idle,
@@ -120,7 +128,11 @@ pub fn run<F: Future>(fut: F, on_idle: impl FnMut() -> bool + Unpin, max_polls: 
         let r = tokio::time::timeout(WATCHDOG, &mut driven).await;
         polls = driven.polls;
         match r {
-            Ok(o) => o,
+            Ok(o) => {
+                let ms = tokio::time::Instant::now().duration_since(t0).as_millis() as u64;
+                SIM_MS.with(|c| c.set(c.get() + ms));
+                o
+            }
             Err(_) => Outcome::Stuck,
         }
     });
